@@ -216,6 +216,21 @@ macro_rules! affine {
             acc.eval(p.iter().any(|x| *x != 0.0), gp.iter().fold(0, |h, s| hmix(h, s.bits())));
             if !(0..R).all(|i| gp[i].f() == wp[i]) { acc.fail(&format!("{tn}::transform_point"), format!("m={:?} p={:?} got={:?} want={:?}", arr, p, gp, wp)); }
             if !(0..R).all(|i| gv[i].f() == wv[i]) { acc.fail(&format!("{tn}::transform_vector"), format!("m={:?} p={:?} got={:?} want={:?}", arr, p, gv, wv)); }
+            // transform_vector ignores the translation: whatever the last column holds (infinities, NaN,
+            // huge values), the result is bit-for-bit the one obtained with a zero translation
+            {
+                let poison = [<$S as Sc>::of(f64::INFINITY), <$S as Sc>::of(f64::NAN), <$S as Sc>::of(f64::NEG_INFINITY), <$S as Sc>::of(1e30), <$S as Sc>::of(-0.0)];
+                let mut az = arr;
+                for r in 0..R { az[R * R + r] = <$S as Sc>::zero(); }
+                let base = affine!(@tv $R, <$T>::from_cols_array(&az), <$P as Flat>::build(&pv));
+                for s0 in 0..3 {
+                    let mut ap = arr;
+                    for r in 0..R { ap[R * R + r] = poison[(s0 + r * 2) % 5]; }
+                    let gq = affine!(@tv $R, <$T>::from_cols_array(&ap), <$P as Flat>::build(&pv));
+                    acc.eval(true, 5 + s0 as u64);
+                    if !bits_eq(&gq, &base) { acc.fail(&format!("{tn}::transform_vector(ignores translation)"), format!("linear part {:?} translation {:?} v={:?}: got={:?}, with zero translation {:?}", &arr[..R * R], &ap[R * R..], p, gq, base)); }
+                }
+            }
             // composition: (A*B) p = A (B p), with B = A scaled
             let mut arr2 = arr;
             for e in 0..RC { arr2[e] = <$S as Sc>::of(arr[(e * 3 + 1) % RC].f() * other_scale.signum().max(-1.0) + (e % 2) as f64); }
